@@ -301,7 +301,24 @@ fn case(src: &mut Src, ctx: &mut Ctx) -> Result<(), Fail> {
     let mut steps = 0;
     while steps < 200 && src.more(39, 40) {
         steps += 1;
-        match src.weighted(&[12, 4, 2, 2, 1]) {
+        // (new kinds are appended so that the draws of saved tapes keep their meaning)
+        match src.weighted(&[12, 4, 2, 2, 1, 2]) {
+            5 if p.fin_arrived => {
+                // text beyond the FIN: not part of the peer's stream, must never be delivered
+                // or acknowledged (RFC 9293 3.10.7.4, "ignore the segment text")
+                let k = src.usize(0, 3);
+                let len = src.usize(1, max_payload.min(64));
+                let seqn = irs.wrapping_add(2).wrapping_add(p.s.len() as u32).wrapping_add(k as u32);
+                let mut seg = mk(seqn, Some(p.iss.wrapping_add(1)), if src.chance(1, 4) { PSH } else { 0 }, src.u16());
+                seg.payload = (0..len).map(|i| 0xF0u8 ^ (i as u8) ^ (k as u8)).collect();
+                ctx.label("seg:text-after-fin");
+                ctx.note(|| format!("peer: {} octets of text {} past the FIN (rcv_nxt={} edge={})", len, k, p.last_ack, p.last_edge));
+                let out = bed.deliver(&seg)?;
+                for s in &out {
+                    ctx.note(|| format!("sock: {}", s));
+                    p.observe(s)?;
+                }
+            }
             0 | 3 => {
                 // a segment
                 let dup = !history.is_empty() && src.chance(1, 8);
@@ -454,6 +471,28 @@ fn case(src: &mut Src, ctx: &mut Ctx) -> Result<(), Fail> {
                 if stalled > 50 {
                     break;
                 }
+            }
+        }
+    }
+    if p.finished_seen && src.weighted(&[1, 2]) == 1 {
+        // end-of-stream was reported: whatever the peer sends now, nothing more is delivered
+        ctx.label("tail:text-after-finished");
+        for k in 0..src.usize(1, 3) {
+            let len = src.usize(1, max_payload.min(64));
+            let seqn = irs.wrapping_add(2).wrapping_add(p.s.len() as u32).wrapping_add(k as u32 * src.usize(0, 2) as u32);
+            let mut seg = mk(seqn, Some(p.iss.wrapping_add(1)), 0, 1000);
+            seg.payload = vec![0xEE; len];
+            ctx.note(|| format!("peer: {} octets of text after the FIN was consumed", len));
+            let out = bed.deliver(&seg)?;
+            for s in &out {
+                ctx.note(|| format!("sock: {}", s));
+                p.observe(s)?;
+            }
+            read_app(&mut bed, &mut p, 65536, ctx)?;
+            bed.advance(20_000);
+            let out = bed.poll()?;
+            for s in &out {
+                p.observe(s)?;
             }
         }
     }
